@@ -1,17 +1,38 @@
 (* C30 — running under asyncio gives the same schedule as the plain loop.
-   In src/hio/base/doing.py Doist.ado is Doist.do with `await asyncio.sleep(0)` between
-   cycles (and an AsyncTimer in real-time mode); no scheduler state is involved in
-   the wait, so the model has ONE definition of the run for both (Model/Sched.v:
-   ado_run := do_run).  The theorem below is therefore true by construction and
-   carries no assurance by itself.  What decides C30 is the two-way correspondence
-   of harness/drivers/c30.py: every generated program is run twice on the real
-   Doist, with do() and with asyncio.run(ado()); both observations (full event
-   trace with tymes, done flags, doers lists, final tyme, raised/returned) must
-   equal the one model run and each other.  The theorems about do_run (C01–C06)
-   transfer to ado through that equality. *)
-From Hio Require Import Base.Prelude Base.Time Model.Sched.
+   In src/hio/base/doing.py Doist.ado is a second, separately written copy of the
+   body of Doist.do that awaits asyncio.sleep(0) after every pass (and uses an
+   AsyncTimer in real-time mode).  Model/Sched.v mirrors that: `ado_run`/`acycle_loop`
+   are written out separately from `do_run`/`cycle_loop`, the await is a step on the
+   scheduler state that changes nothing (other asyncio tasks run there; none of the
+   scheduler's state is involved).  The theorems say that the two definitions
+   compute the same run — trace, tymes, done flags, doers lists — for every
+   program, every time type, every budget, and for every history of runs on one
+   Doist.  All theorems about do_run (C01–C06) therefore hold of ado_run.
+   The tie to the code is two-way: harness/drivers/c30.py runs every generated
+   program with do() and with asyncio.run(ado()) on the real Doist; the do()
+   observation is compared with do_run, the ado() observation with ado_run, and
+   the two observations with each other.  What the model cannot exhibit: the
+   interleaving with other asyncio tasks during the await. *)
+From Hio Require Import Base.Prelude Base.Time Model.Sched Proofs.SchedAdo.
 
 Theorem C30_ado_is_do :
   forall (T : Type) (TT : Time T) (cycles fuel : nat) (p : prog T), ado_run cycles fuel p = do_run cycles fuel p.
-Proof. reflexivity. Qed.
+Proof. intros. apply ado_run_eq. Qed.
 Print Assumptions C30_ado_is_do.
+
+Theorem C30_ado_history :
+  forall (T : Type) (TT : Time T) (cycles fuel : nat) (p : prog T) (hist : list (option T * option T)),
+    fold_left (fun s '(l, t) => ado_again cycles fuel (p_tock p) l t s) hist (ado_run cycles fuel p) =
+    fold_left (fun s '(l, t) => do_again cycles fuel (p_tock p) l t s) hist (do_run cycles fuel p).
+Proof. intros. rewrite ado_run_eq. apply ado_history_eq. Qed.
+Print Assumptions C30_ado_history.
+
+(* Non-vacuity: a run that is stopped by its limit in the very cycle in which the
+   last doer completes (the boundary a swap of ado's two stop tests would move). *)
+Example C30_example :
+  let Y := {| f_es := []; f_out := OYield None |} in
+  let p := {| p_tock := 1%Z; p_limit := Some 3%Z; p_tyme := 0%Z; p_doers := [1]%N;
+              p_defs := [(1%N, FLeaf KDoer [Y; Y; Y; {| f_es := []; f_out := OReturn RTrue |}])] |} in
+  get_done (ado_run 10 100 p) 0%N = Some true /\ tyme (ado_run 10 100 p) = 3%Z /\
+  oof (ado_run 10 100 p) = false.
+Proof. vm_compute. repeat split. Qed.
